@@ -631,8 +631,22 @@ def ld_mult_rule(ctx):
                     pass
             if verdict is not None:
                 forms.add(verdict)
-            else:
+                continue
+            # a value read back from a memo kept on the module: whatever the storing path computed
+            # (that path is judged above; the memo's life-cycle is LD-STATE's)
+            core = r
+            if isinstance(core, ast.Call) and isinstance(core.func, ast.Attribute) and core.func.attr == "get":
+                core = core.func.value
+            elif isinstance(core, ast.Subscript):
+                core = core.value
+            ch = attr_chain(core) if isinstance(core, ast.Attribute) else None
+            if ch and ch.startswith("self.") and ch.count(".") == 1 and p.attrs(pa).get(ch[5:]) is not None and p.attrs(pa)[ch[5:]].kind == "PLAIN":
+                continue
+            # a definite miscount: log|scale| not multiplied at all
+            if norm_text(r) == "self._log_abs_scale" or (isinstance(r, ast.Call) and _last(r) == "sum" and norm_text(getattr(r.func, "value", r)) == "self._log_abs_scale"):
                 res.fail(Finding("LD-MULT", fi.module, fi.qualname, path.ret_node, "the log-det of a pointwise affine map on inputs of event shape S must be log|scale| counted once per element of S (expand(S).sum() or * numel(S))"))
+            else:
+                res.undecide("PointwiseAffineTransform._batch_logabsdet", "returned form `%s` is not expand(S).sum() / * numel(S)" % norm_text(r)[:60])
         if forms:
             res.ok("PointwiseAffineTransform: log|scale| counted once per event element (%s)" % ", ".join(sorted(forms)))
         for direction, want_sign in (("forward", 1), ("inverse", -1)):
@@ -1314,6 +1328,83 @@ def ld_state_rule(ctx):
             else:
                 res.ok("%s.%s: derived from %s, %s" % (cls.name, name, src[0], "refreshed outside the constructor" if refreshed else "never read"), nontrivial=False)
         res.ok("%s: stored quantities %s have no stale constructor-time copy" % (cls.name, sorted(set(stored.values()))[:4]))
+    # memoised derived state: a method (not the constructor) stores, in a plain attribute or a
+    # container kept in one, a value computed from a parameter / persistent buffer, and nothing
+    # clears it where that state is replaced (load_state_dict for buffers; also train() for
+    # parameters, which an optimiser updates)
+    from ..own import ATTR_EFFECTS, EFFECTS
+
+    for cls in p.all_classes():
+        if not cls.is_nn_module():
+            continue
+        attrs = p.attrs(cls)
+        stored_attrs = {n for n, a in attrs.items() if a.kind == "PARAM" or (a.kind == "BUFFER" and a.extra is True)}
+        if not stored_attrs:
+            continue
+        # properties that read stored attributes count as stored too
+        derived_props = set()
+        for n, a in attrs.items():
+            if a.kind == "PROPERTY" and a.func is not None:
+                reads = {x.attr for x in ast.walk(a.func.node) if isinstance(x, ast.Attribute) and isinstance(x.value, ast.Name) and x.value.id == "self"}
+                if reads & stored_attrs:
+                    derived_props.add(n)
+        for mname, m in cls.methods.items():
+            if mname == "__init__" or m.cls is not cls:
+                continue
+            local_defs = {}
+            for st in ast.walk(m.node):
+                if isinstance(st, ast.Assign) and len(st.targets) == 1 and isinstance(st.targets[0], ast.Name):
+                    local_defs.setdefault(st.targets[0].id, []).append(st.value)
+
+            def deps(e, depth=0, seen=None):
+                seen = seen if seen is not None else set()
+                out = set()
+                for x in ast.walk(e):
+                    if isinstance(x, ast.Attribute) and isinstance(x.value, ast.Name) and x.value.id == "self":
+                        out.add(x.attr)
+                    elif isinstance(x, ast.Name) and x.id in local_defs and depth < 4 and x.id not in seen:
+                        seen.add(x.id)
+                        for v in local_defs[x.id]:
+                            out |= deps(v, depth + 1, seen)
+                return out
+
+            for st in ast.walk(m.node):
+                if not isinstance(st, ast.Assign):
+                    continue
+                for t in st.targets:
+                    root = t
+                    while isinstance(root, ast.Subscript):
+                        root = root.value
+                    if not (isinstance(root, ast.Attribute) and isinstance(root.value, ast.Name) and root.value.id == "self"):
+                        continue
+                    memo = root.attr
+                    ai = attrs.get(memo)
+                    if ai is None or ai.kind in ("PARAM", "BUFFER", "MODULE", "MODULELIST", "EXTMODULE") or memo in stored_attrs:
+                        continue
+                    if any((c.name, memo) in ATTR_EFFECTS or (c.name, memo) in EFFECTS or (c.name, memo.split(".")[0]) in ATTR_EFFECTS for c in cls.repo_mro()):
+                        continue  # the Linear cache: its life-cycle is C10's typestate analysis
+                    d = deps(st.value)
+                    src = sorted((d & stored_attrs) | (d & derived_props))
+                    if not src:
+                        continue
+                    # cleared where the stored state is replaced?
+                    def clears(meth):
+                        f = cls.lookup_method(meth)
+                        if f is None or f.cls is None or not f.cls.is_subclass_of(cls) and f.cls is not cls:
+                            return False
+                        for n in ast.walk(f.node):
+                            if isinstance(n, ast.Call) and isinstance(n.func, ast.Attribute) and n.func.attr in ("clear", "invalidate") and isinstance(n.func.value, ast.Attribute) and n.func.value.attr == memo:
+                                return True
+                            if isinstance(n, ast.Assign) and any(isinstance(tt, ast.Attribute) and tt.attr == memo for tt in n.targets):
+                                return True
+                        return False
+
+                    needs = ["_load_from_state_dict"] + (["train"] if any(attrs[a].kind == "PARAM" for a in src if a in attrs) else [])
+                    missing = [h for h in needs if not clears(h)]
+                    if missing:
+                        res.fail(Finding("LD-STATE", cls.module, m.qualname, st, "`self.%s` memoises a value computed from the stored %s and is not cleared in %s: after the stored value is replaced (load_state_dict%s) the memo still answers for the old one" % (memo, ", ".join("`%s`" % a for a in src), " / ".join(missing), ", an optimiser step" if "train" in needs else ""), construct="memo %s.%s" % (cls.name, memo)))
+                    else:
+                        res.ok("%s.%s: memo of %s cleared in %s" % (cls.name, memo, src, needs), nontrivial=False)
     if n_cls < 5:
         raise AnalysisIncomplete("LD-STATE: %d module classes with stored constructor values (< 5 confirmed by hand)" % n_cls)
     return res
